@@ -141,7 +141,7 @@ def system_phase(rep, pid, kind):
     """Simulate MC_System, replay into real objects, validate the events of `kind` ("tree" | "path" | "fw") with that module's validator."""
     from .. import tlc
     from ..common import tier
-    num, depth = (40, 24) if tier() == "quick" else (600, 40)
+    num, depth = (10, 16) if tier() == "quick" else (150, 30)      # TLC simulation evaluates every successor of every step: keep it small
     res = tlc.run_tlc("MC_System", f"MC_System_{tier()}.cfg", name=f"{pid.lower()}_sysmc")
     if res.get("violated"):
         raise MachineryError(f"MC_System violates {res['violated']}:\n{res['out'][-2000:]}")
